@@ -1544,7 +1544,7 @@ class Path:
         if f.self_obj is not None:
             args = [f.self_obj] + args
         if not force_inline:
-            c = self.ex.contract_for(info)
+            c = self.ex.contract_for(info, self, args, kwargs)
             if c is not None:
                 return self.ex.call_contract(self, c, info, args, kwargs, is_init)
         self.depth += 1
